@@ -107,6 +107,27 @@ CHECKS["C10"] = dict(
     technique="Lean 4 proof (non-interference by structural induction on the evaluation; commutation lemmas) + differential correspondence with fault enumeration over fields",
     design="5/C10")
 
+CHECKS["C07"] = dict(
+    text="Lean 4: buildForest_preorder (the trees structure() builds, in preorder, are the copybook's entries in source order minus 66/77/88: "
+         "nothing lost, duplicated, reordered), buildForest_levels (every entry hangs below a strictly smaller level number), entries_emit and "
+         "names_toItem (one schema node per entry, in place, REDEFINES alternatives in declaration order), C07_every_entry_once (composition), "
+         "one_schema_per_record. Corresponded with structure()/schema_iter() on rendered copybooks.",
+    note="Trusted: Lean kernel; the regular-expression layers (reference_format, dde_sentences, clause_dict) are exercised by rendering the "
+         "abstract copybook to text, not modelled here (C12). Known findings D11 (final entry dropped, test-pinned) and D37 (copybook starting "
+         "with a 77-level).",
+    technique="Lean 4 proof (stack-machine invariant + abstraction function to the entry list; mutual induction over item trees) + differential correspondence",
+    design="5/C07")
+CHECKS["C11"] = dict(
+    text="Lean 4: over the explicit process-wide state (FILLER counter, atomic-type set) every operation's output from any reachable state "
+         "equals its output from the initial state (step_out_independent), hence probe_history_independent for every history; the pinned "
+         "commit's behaviour is machine-refuted (D15, D16). The model's completeness is tied by a STATE INVENTORY extracted from the source "
+         "each run (every module/class-level object, every statement mutating process-wide state) which must equal the reviewed one, and by "
+         "three-way comparison: probe after a random history in a long-lived interpreter / same probe in a fresh interpreter / model.",
+    note="Trusted: Lean kernel; the inventory scanner (extract.py) and its reviewed output (Tie/Pinned.lean); documents and loaded schemas are "
+         "values in the model, their immutability is observed by deep comparison on the real objects; single-threaded use.",
+    technique="Lean 4 proof (state-independence of outputs on reachable states, induction over histories) + extracted state inventory + differential correspondence against a fresh interpreter",
+    design="5/C11")
+
 NOT_APPLICABLE = {
 }
 
